@@ -177,8 +177,9 @@ Definition subtree (s : state) (e : id) : list id :=
   | _ => [e]
   end.
 
-Definition truthy_name (s : state) (e : id) : option str :=
-  match get_str s e str_NAME with Some [] => None | o => o end.
+(* [if element.name is not None] (the test was [if element.name:] before the repair of the
+   empty-name defect) *)
+Definition truthy_name (s : state) (e : id) : option str := get_str s e str_NAME.
 
 (* _update_new_namespace for one child list *)
 Definition populate (s : state) (ck : kind) (xs : list id) (t : nstable) : nstable :=
